@@ -18,7 +18,7 @@
 (* the arithmetic meaning "bits lo..bsi of k".  DigitsAgree is checked for *)
 (* all scalars.  Points are elements of Z_N (the group law itself is C01). *)
 (***************************************************************************)
-EXTENDS Integers, Sequences, FiniteSets
+EXTENDS Integers, Sequences, FiniteSets, PipCtl
 
 CONSTANTS WORD,      \* bits per word            (64 in the code)
           NW,        \* words per scalar         (4)
@@ -61,7 +61,7 @@ CodeDigit(k, b) ==
      ELSE And(Shr(Word(k, wi), bi - Edge), Pow2(C) - 1)                 \* inside one word
 
 (* meaning: the bits lo..b of k, lo = max(b - C + 1, 0) *)
-WinLo(b) == IF b - C + 1 > 0 THEN b - C + 1 ELSE 0
+WinLo(b) == PcWinLo(C, b)
 WinDigit(k, b) == (k \div Pow2(WinLo(b))) % Pow2(b - WinLo(b) + 1)
 
 n == Len(Points)
@@ -105,10 +105,10 @@ Reduce ==
 
 Advance ==
   /\ phase = "advance"
-  /\ IF bsi < C
+  /\ IF PcLast(C, bsi)
      THEN phase' = "done" /\ UNCHANGED <<bsi, nd>>
-     ELSE /\ bsi' = bsi - C
-          /\ nd' = IF bsi - C < Edge THEN bsi - C + 1 ELSE C
+     ELSE /\ bsi' = PcNextBsi(C, bsi)
+          /\ nd' = PcNextNd(C, bsi)
           /\ phase' = "scatter"
   /\ UNCHANGED <<Points, ks, res, buckets, ndsum>>
 
